@@ -1238,11 +1238,17 @@ func (sdb *DbSqlite) userCheck(email, password string) (data.Nodes, error) {
 		}
 
 		for _, e := range edges {
-			// make sure edge is not tombstone
+			// skip this edge if it is a tombstone, there may be
+			// another path to the root
+			tombstone := false
 			for _, p := range e.Points {
 				if p.Type == data.PointTypeTombstone && p.Value != 0 {
-					return false, nil
+					tombstone = true
 				}
+			}
+
+			if tombstone {
+				continue
 			}
 
 			if e.Up == "root" {
